@@ -393,6 +393,7 @@ pub fn bfs(ctx: &mut Ctx, n: usize, t: u64, depth: usize, tie: bool, dedup: bool
                 let mut h2 = hist.clone();
                 h2.push(op);
                 facts.clear();
+                ctx.begin(|| case_json(n, t, &h2, tie));
                 let (mut x2, r2) = run_hist(n, t, &h2, tie, &mut facts);
                 let counted = !shared_level || count_shared;
                 if counted {
